@@ -311,6 +311,19 @@ def check_roles(prog, rep):
             # `colour == BinaryColor::On` (the derived == on the two-variant glyph colour) returned as a value: the
             # same two cases as `match colour { On => true, Off => false }`
             rr = strip_refs(ret)
+            # a captured callable bound to `BinaryColor::is_on` / `is_off` (a selector handed to a shared helper):
+            # the two cases of the predicate it names
+            if rr[0] == "call" and rr[1].split("::")[-1] in ("call", "call_mut", "call_once") and len(rr[3]) == 2:
+                fitem, targ = strip_refs(rr[3][0]), strip_refs(rr[3][1])
+                if fitem[0] == "const" and isinstance(fitem[1], str) and fitem[1].startswith("fn:") and fitem[1].endswith(("BinaryColor::is_on", "BinaryColor::is_off")) \
+                        and targ[0] == "agg" and targ[1] == "tuple" and len(targ[2]) == 1:
+                    on = fitem[1].endswith("is_on")
+                    arg_ = strip_refs(targ[2][0])
+                    # the call of the selector itself is recorded as an effect of the closure; it is the pure predicate
+                    eff_ = tuple(e for e in sm.effects if not (e[0] == "call" and e[1][1].split("::")[-1] in ("call", "call_mut", "call_once") and "::function::Fn" in e[1][1]))
+                    out.append((facts + [("variant", arg_, ("On",))], ("const", on), eff_))
+                    out.append((facts + [("variant", arg_, ("Off",))], ("const", not on), eff_))
+                    continue
             if rr[0] == "bin" and rr[1] in ("Eq", "Ne"):
                 ops = [strip_refs(rr[2]), strip_refs(rr[3])]
                 lit = [o for o in ops if o[0] == "agg" and str(o[1]).rsplit("::", 1)[0].endswith("BinaryColor") and not o[2]]
